@@ -17,6 +17,7 @@ func init() {
 			"(R5) the IBC callbacks convert only through ConvertCoin and turn its error into an error acknowledgement / returned error, and the middleware runs the wrapped application first.",
 		Assumptions: []string{"the EVM executes the registered ERC20 contract faithfully; bank keeper moves exactly the given coins", "ibc-core discards the callback's state changes when an error acknowledgement is returned"},
 		Declined:    []string{"the backing equation supply ≤ escrow over all histories against arbitrary token bytecode"},
+		Thorough:    wholeProgramAckCommit,
 	})
 }
 
